@@ -5,3 +5,4 @@ import ScnrVerif.Model.Iter
 import ScnrVerif.Model.SpecFind
 import ScnrVerif.Model.SpecIter
 import ScnrVerif.Model.SpecPat
+import ScnrVerif.Model.World
